@@ -120,17 +120,37 @@ class Reread(object):
     def case(self, old, new, label, expect_triple=None, target=None, expect_target=None, sup_env=(None, None),
              old_text=None, new_text=None):
         """One reread.  Returns the real answer."""
-        R, chk, w = self.R, self.chk, self.world
         if old_text is None:
             old_text, new_text = self.files(old, new, sup_env)
-        replay = {'kind': None, 'label': label, 'old_file': old_text, 'new_file': new_text}
+        return self.sequence([old_text, new_text], label, expect_triple, target, expect_target)
+
+    def sequence(self, texts, label, expect_triple=None, target=None, expect_target=None):
+        """The daemon starts from texts[0]; then the file is rewritten and reread once per further
+        text (edit A -> reread -> edit B -> reread ...) with no update in between.  The file-level
+        expectations apply to the last step.  Returns the last answer."""
+        R, chk, w = self.R, self.chk, self.world
+        replay = {'kind': None, 'label': label, 'old_file': texts[0], 'new_file': texts[-1]}
+        if len(texts) > 2:
+            replay['edit_sequence'] = list(texts)
         self.n += 1
         try:
-            w.boot(old_text)
+            w.boot(texts[0])
         except ValueError as e:
             replay.update(kind='generator produced an old file the reader rejects', error=str(e))
             self.violation(replay, nofail=True)
             return None
+        r = None
+        for k, new_text in enumerate(texts[1:]):
+            last = k == len(texts) - 2
+            rp = dict(replay, new_file=new_text, step=k + 1)
+            r = self._step(new_text, rp, label, expect_triple if last else None, target if last else None,
+                           expect_target if last else None)
+            if r is None or r[0] != 'ok':
+                break
+        return r
+
+    def _step(self, new_text, replay, label, expect_triple, target, expect_target):
+        R, chk, w = self.R, self.chk, self.world
         cur_cfgs = w.cur_configs()
         cur_enc = [R.encode_group(c, i) for i, c in enumerate(cur_cfgs)]
         before = w.snapshot()
@@ -148,8 +168,23 @@ class Reread(object):
             self.violation(replay)
             return r
         got = tuple(ans[0])
-        new_cfgs = list(w.options.process_group_configs)
+        # what the file says now, by a reader of its own; the daemon's candidate list must describe it
+        new_cfgs = w.fresh_parse()
         new_enc = [R.encode_group(c, 100 + i) for i, c in enumerate(new_cfgs)]
+        have = list(w.options.process_group_configs)
+        have_enc = [R.encode_group(c, 200 + i) for i, c in enumerate(have)]
+        stale = []
+        if [g['name'] for g in have_enc] != [g['name'] for g in new_enc]:
+            stale.append('group names %r, the file has %r' % ([g['name'] for g in have_enc], [g['name'] for g in new_enc]))
+        else:
+            for fe, he in zip(new_enc, have_enc):
+                d = R.describes(fe, he)
+                if d:
+                    stale.append('%s: %r' % (fe['name'], d))
+        if stale:
+            replay.update(kind='after reread options.process_group_configs does not describe the file as it is now',
+                          stale=stale, answer=list(got))
+            self.violation(replay)
         # frame: no process record, pid, state, group or active config changed by the reread
         after = w.snapshot()
         if after['groups'] != before['groups'] or after['active_vals'] != before['active_vals']:
@@ -316,6 +351,15 @@ def run_reread(chk, wd):
             rr.case(old, new, 'struct:' + label, expect_triple=exp)
         rr.unchanged(new, 'unchanged:' + label)
         chk.dist('structural')
+    # sequences: edit -> reread -> edit -> reread, no update in between
+    seqs = c15_gen.reread_sequences(chk.tier)
+    for label, steps in seqs:
+        rr.sequence([rr.base + c15_gen.render(x) for x in steps], label)
+        chk.dist('sequence:scripted')
+    for i in range(60 if quick else 1500):
+        steps, labels = c15_gen.random_chain(rng, rng.choice([2, 2, 3]))
+        rr.sequence([rr.base + c15_gen.render(x) for x in steps], 'seq:random:' + '+'.join(labels))
+        chk.dist('sequence:random')
     # listener subscriptions: the same set of event types in every order
     import itertools
     for evs in (['PROCESS_COMMUNICATION', 'SUPERVISOR_STATE_CHANGE', 'EVENT'], ['TICK_5', 'PROCESS_LOG', 'PROCESS_STATE', 'TICK_60']):
